@@ -782,8 +782,11 @@ func (e *Exec) binop(op token.Token, a, b Value, ta, tb types.Type) Value {
 			if sb.isConc() && sb.conc == "" {
 				return sa
 			}
-			// concatenation with an arbitrary string: formatting, never the subject of a property
-			return opaqueStr(e, "concat")
+			// concatenation with an arbitrary string: opaque as long as it is only text; comparing
+			// it needs the content (see builtCheck)
+			r := opaqueStr(e, "concat")
+			r.built = true
+			return r
 		}
 		panic(unsupported("string operation " + op.String() + " on atom"))
 	}
